@@ -394,6 +394,11 @@ def check_C04(run):
     check_hist_generic(run, [("frame", "frame", 300, 6000, RULE_HIST + "; profile frame: bucket names '', a, ab, abc, b and keys "
                               "bc, c, b, a, ab, abc (coinciding bucket+key concatenations), all four structures; the L0 "
                               "specification is a map bucket -> structure, so any cross-bucket effect is a spec mismatch")])
+    check_hist_generic(run, [("framemerge", "framemerge", 150, 3000, RULE_HIST + "; profile framemerge: colliding bucket / key / member "
+                              "names across buckets and across data structures (key/value, sets, sorted sets), with Merge after 30% "
+                              "of the transactions and reopens: Merge must not let one bucket's records decide about another's "
+                              "(Merge's known findings F30 are attributed as in C15)")],
+                       known=known_merge)
 
 
 def check_C05(run):
@@ -407,7 +412,13 @@ def check_C05(run):
 def check_C06(run):
     check_hist_generic(run, [("set", "set", 500, 10000, RULE_HIST + "; profile set: all 14 set calls incl. SPop (member chosen by "
                               "the code is an oracle input checked for membership), SMove*, empty and repeated members"),
+                             ("setamb", "setamb", 150, 3000, RULE_HIST + "; profile setamb: buckets s, sa, keys a, ab, b, members "
+                              "'', b, bc, c, x, 1x: bucket / key / member byte strings that concatenate ambiguously"),
                              ("dsset", "dsset", 300, 6000, "the exported ds/set type driven directly")])
+    check_hist_generic(run, [("setraw", "setraw", 150, 3000, RULE_HIST + "; profile setraw: set transactions that remove a member and then "
+                              "move / re-add it in the same transaction; impl = model must hold; a spec mismatch is attributed to known "
+                              "finding F21 (C13) only when the failing call validates a set the transaction already modified")],
+                       known=known_F21)
 
 
 def check_C07(run):
